@@ -74,7 +74,9 @@ def tables(draw):
     return dict(nsteps=nsteps, reverse=reverse, continuous=cont, freq=freq, rows=rows, has_mult=has_mult,
                 extras=extras, as_pvar=[e for e in as_pvar if e in extras], cols=list(perm),
                 header=draw(st.booleans()), lonlat=draw(st.booleans()),
-                spell=draw(st.sampled_from(SPELL)), rt=draw(st.booleans()))
+                spell=draw(st.sampled_from(SPELL)), rt=draw(st.booleans()),
+                # particles that die between releases and stay in the state (as under the dense output layout)
+                kills=draw(st.sampled_from([0, 0, 0b1001, 0b110110])))
 
 
 def expected_schedule(case):
@@ -212,6 +214,12 @@ def oracle(case) -> core.CaseResult:
                 res.check(np.datetime64(v, "s") == np.datetime64(T(step), "s"), "release_time_value",
                           f"pid {pid} released at step {step}: release_time {v}, expected {T(step)}")
         released += got_n
+        if case.get("kills"):
+            for idx in range(len(state)):
+                if (case["kills"] >> (idx % 8)) & 1 and (idx + step) % 3 == 0:
+                    state["alive"][idx] = False
+    if case.get("kills"):
+        res.cls("deaths_between_releases")
     res.check(released == total_exp, "total_count", f"{released} released in the window, expected {total_exp}")
     pid = [int(p) for p in state["pid"]]
     res.check(pid == list(range(len(pid))), "pid_sequence", f"pids {pid[:10]}")
